@@ -492,7 +492,7 @@ fn run_history(ctx: &mut Ctx, mut h: RH, r: &mut Rng, nops: usize) {
 
 fn hist_lane(ctx: &mut Ctx, idx: u64) {
     let mut r = ctx.rng();
-    let o = ROpts { substvars: idx % 3 == 0, ws_level: (idx % 3) as u8, name_pool: Some(&POOL), max_entries: 3, max_alts: 2, ..ROpts::default() };
+    let o = ROpts { substvars: idx % 3 == 0, ws_level: (idx % 3) as u8, name_pool: Some(&POOL), max_entries: 3, max_alts: 2, inner_newlines: idx % 2 == 0, ..ROpts::default() };
     let g = relgen::gen_field(&mut r, &o);
     let Some(h) = RH::from_text(&g.text, g.items.clone()) else {
         ctx.count("skipped:start-field-rejected");
